@@ -29,32 +29,71 @@ NOTES = {
  "C06": "the failing test passed twice when re-run alone with the change", "C13": "both failing tests passed twice when re-run alone with the change",
  "C18": "the failing test and the erroring test passed twice when re-run alone with the change",
 }
-for pid, (what, needs) in DESC.items():
-    d = f"seeded/{pid}"
-    if not os.path.isdir(d):
-        continue
-    ev = open(f"{d}/eval.log").read() if os.path.exists(f"{d}/eval.log") else ""
+
+R2 = {
+ "C01-2": ("validate_ownership skips the owner comparison for a requester without a runner id", "status PENDING/RUNNING/PAUSED/RESUMED with a stored owner, a valid edge, requester id None or ''"),
+ "C02-2": ("MemOrchestrator._atomic_status_transition pops its lock-table entry in a finally block", "claim by A preempted after fetching the lock; B claims, releases (RETRY) and claims again through a fresh lock; 2 preemptions"),
+ "C03-2": ("BaseRunner._kill_and_reroute writes REROUTED for a still-PENDING invocation without queueing it", "graceful stop between the claim (PENDING) and the RUNNING write"),
+ "C04-2": ("try/except around the recovery transition wraps the whole scan loop", "a recovery scan with >= 2 invocations, an owner moves one of them between scan and transition, another stuck one later in scan order"),
+ "C05-2": ("_set_result deletes a stored exception and _set_exception deletes a stored result", "a displaced (recovered) worker finishing its body after the winner with the other outcome kind"),
+ "C06-2": ("MemOrchestrator.filter_by_key_arguments intersects in place (rewritten single pass)", "ARGUMENTS/KEYS with >= 2 arguments; X RUNNING, Y (same first argument) polled, then Z == X polled"),
+ "C07-2": ("route_call treats Python-equal kwargs as the same call under raise-on-difference", "non-key values 1 / True / 1.0 with an equal key still REGISTERED"),
+ "C08-2": ("SQLiteBroker.route_invocations batch insert stamps created_at in Unix seconds (single routing: julianday)", "a history mixing batch and single routing with a batch message still queued"),
+ "C09-2": ("SQLiteBlockingControl.get_blocking_invocations drops DISTINCT", "two waiters on one unfinished invocation and a limit smaller than the number of edges"),
+ "C10-2": ("InvocationHistory constructed inside the background writer thread", "writers of one invocation running late / out of order"),
+ "C11-2": ("ThreadRunner._on_stop reroutes every alive thread before the first join", "stop while a task waits for a sub-task that is RUNNING in the same runner"),
+ "C12-2": ("calculate_runner_position = number of runners created strictly earlier", "two active runners with identical creation_time"),
+ "C13-2": ("occurrence cleared once an OR/single trigger consumed it although an AND trigger still needs it", "a condition shared by a single/OR trigger and an AND trigger; occurrences arriving in different iterations"),
+ "C14-2": ("ProcessRunner: get_active_child_runner_ids returns all tracked children + _reclaim_available_slots skips the dead scan below capacity", "a worker dying mid-invocation while the pool is below max_parallel_slots, further loop iterations"),
+ "C15-2": ("JsonSerializer._reconstruct_from_json does not descend into a list nested directly in a list", "Enum / exception / JsonSerializable object inside a list inside a list, JsonSerializer"),
+ "C16-2": ("SQLiteTrigger claims use INSERT OR IGNORE", "claim, expiry, re-claim, then another claim before the new expiration"),
+ "C17-2": ("sanitize_table_prefix re-binds a digit-leading id before hashing", "ids D and '_' + D with D starting with a digit, one database file"),
+ "C18-2": ("DeterministicExecutor.execute_task: process-wide in-flight launch registry keyed without the workflow id", "two workflows inside execute_task for the identical sub-call at the same time in one process"),
+ "C19-2": ("set_invocation_retry re-queues the invocation before incrementing the retry counter (re-based onto the C19 repair)", "a second worker runs the re-queued invocation between route and increment"),
+ "C20-2": ("pynmon queue_view skips and never re-routes a second copy of an id it already popped", "the same id queued more than once and a limit covering the whole queue"),
+}
+R3 = {
+ "C03-3": ("recovery tasks merged into one helper that returns on a lost race (nothing already taken is re-queued)", "recovery scan with >= 2 invocations, the owner moves a later one between scan and transition"),
+ "C04-3": ("BaseRunner._report_child_runner_heartbeats throttled to once per atomic-service check interval", "parent/child runner topology, dead-runner timeout shorter than the check interval, several loop iterations"),
+ "C06-3": ("get_blocking_invocations_to_run checks all candidates first and claims them afterwards", "two same-key invocations both awaited by a parent, one poll with >= 2 slots, two worker threads starting at once"),
+ "C08-3": ("SQLiteBroker.count_invocations served from a per-instance cache for 0.2 s", "two broker instances on one database: A counts, B routes/retrieves, A counts again"),
+ "C09-3": ("release_waiters moved from set_invocation_status to the result/exception setters (CONCURRENCY_CONTROLLED_FINAL never releases)", "an awaited invocation finalised by concurrency control whose waiter is itself awaited and becomes runnable again"),
+ "C13-3": ("report_tasks_status records only the first invocation of each task in a batch", "a parallelize batch (status REGISTERED reported for several invocations) and a trigger on that status"),
+ "C14-3": ("MultiThreadRunner scale-up compares the queue with max(current, min_processes) (enforce off)", "deaths that take the pool below min_processes with a queue not larger than min_processes"),
+ "C16-3": ("SQLiteStateBackend.iter_history_in_timerange pages by 'timestamp > last' instead of OFFSET", "history entries sharing one timestamp across a page boundary"),
+}
+ALL = {**{k: v for k, v in DESC.items()}, **R2, **R3}
+NOTES.update({})
+import glob
+for d in sorted(glob.glob("seeded/*/")):
+    name = d.rstrip("/").split("/")[-1]
+    pid = name[:3]
+    rnd = {"": 1, "-2": 2, "-3": 3}.get(name[3:], 1)
+    what, needs = ALL.get(name, ("see notes_from_author.md", "see notes_from_author.md"))
+    ev = open(f"{d}eval.log").read() if os.path.exists(f"{d}eval.log") else ""
     runs = re.findall(r"check=(\S+) exit=(\d+) wall=(\d+)s violations=(\d+)", ev)
     base = re.search(r"base=(\S+) verif=(\S+)", ev)
-    confirm = open(f"/tmp/mut/{pid}.out/confirm.log").read() if os.path.exists(f"/tmp/mut/{pid}.out/confirm.log") else ""
-    retest = open(f"/tmp/mut/{pid}.out/retest.log").read() if os.path.exists(f"/tmp/mut/{pid}.out/retest.log") else ""
-    old = json.load(open(f"{d}/meta.json")) if os.path.exists(f"{d}/meta.json") else {}
+    src = {1: "/tmp/mut", 2: "/tmp/mut2", 3: "/tmp/mut3"}[rnd] + f"/{pid}.out"
+    old = json.load(open(f"{d}meta.json")) if os.path.exists(f"{d}meta.json") else {}
+    def lines(path, pat):
+        if not os.path.exists(path):
+            return []
+        return [l.strip()[:200] for l in open(path, errors="replace").read().splitlines() if re.search(pat, l)]
+    confirm = lines(f"{src}/confirm.log", r"^== |^exit=|patch applied|^FAILED|^ERROR pynenc|\d+ passed|\d+ failed")
+    extra = lines(f"{src}/retest.log", r"== retest|\d+ passed|\d+ failed") + lines(f"{src}/resuite.log", r"^== |^FAILED|^ERROR pynenc|\d+ passed|\d+ failed")
     if not confirm and isinstance(old.get("confirmed_by_me", {}).get("demo_and_suite"), list):
-        confirm_lines, retest_lines = old["confirmed_by_me"]["demo_and_suite"], old["confirmed_by_me"].get("failed_tests_rerun_alone_with_change", [])
-    else:
-        confirm_lines = [l[:200] for l in confirm.strip().splitlines()[-12:]]
-        retest_lines = [l[:200] for l in retest.splitlines() if re.search(r"== retest|passed|failed", l)]
+        confirm = old["confirmed_by_me"]["demo_and_suite"]; extra = extra or old["confirmed_by_me"].get("failed_tests_rerun_or_suite_rerun", [])
     meta = {
-        "property": pid, "change": what, "needs_to_manifest": needs,
-        "files": ["patch.diff", "demo.py", "notes_from_author.md", "eval.log"],
-        "author": "independent sub-agent given only the property record and a scratch worktree",
-        "confirmed_by_me": {"demo_and_suite": confirm_lines or "see notes_from_author.md (author's runs)",
-                            "failed_tests_rerun_alone_with_change": retest_lines, "note": NOTES.get(pid, "suite green with the change"),
-                            "how": "fresh scratch worktree of /repo HEAD, git apply patch.diff: demo.py exits 1 with the change and 0 without; existing suite with the change"},
+        "property": pid, "round": rnd, "change": what, "needs_to_manifest": needs,
+        "files": sorted(os.listdir(d)),
+        "author": "independent sub-agent given only the property record and a scratch worktree" + ("" if rnd == 1 else " (and a one-line description of the earlier seeded change(s), to avoid duplicates)"),
+        "confirmed_by_me": {"demo_and_suite": confirm or "see notes_from_author.md (author's runs)",
+                            "failed_tests_rerun_or_suite_rerun": extra, "note": NOTES.get(name, ""),
+                            "how": "fresh scratch worktree of /repo HEAD, git apply patch.diff: demo.py exits 1 with the change and 0 without; existing suite with the change; tests that failed were re-run alone (timing-sensitive tests fail under load on the unchanged code too)"},
         "evaluated": {"repo_commit": base.group(1) if base else None, "verif_commit": base.group(2) if base else None,
                       "runs": [{"check": c, "exit": int(e), "wall_s": int(w), "violations": int(v)} for c, e, w, v in runs],
                       "detected": any(int(e) == 1 and int(v) > 0 for c, e, w, v in runs),
                       "how": "./tools_seed_eval.sh (scratch worktree first on PYTHONPATH, VERIF_OUT redirected; /repo untouched)"},
     }
-    json.dump(meta, open(f"{d}/meta.json", "w"), indent=1)
-    print(pid, meta["evaluated"]["detected"], runs)
+    json.dump(meta, open(f"{d}meta.json", "w"), indent=1)
+    print(name, meta["evaluated"]["detected"], runs)
